@@ -71,7 +71,7 @@ class SchedTransport:
             # DiagnosticSessionControl to the caller's private session level 0x40+i
             lst = self.scripts.get(0x1000 + (data[1] & 0x3F), [])
             sc = lst.pop(0) if lst else ["imm"]
-            final = b"\x50" + data[1:2] + b"\x00\x32\x01\xf4"
+            final = b"\x50" + bytes([data[1] & 0x7F]) + b"\x00\x32\x01\xf4"  # (an ECU that ignores the suppress bit answers without it)
             pend = b"\x7f\x10\x78"
         else:
             did = int.from_bytes(data[1:3], "big")
@@ -157,7 +157,7 @@ def case_s(draw) -> dict[str, Any]:
     for i in range(n):
         # a caller is a piece of scanner code: one read, or a short program of reads and session changes through the ECU-level
         # helpers (set_session runs its hooks and the session change; any of them may fail)
-        ops = draw(st.one_of(st.just(["read"]), st.just(["read"]), st.just(["read-raw"]), st.lists(st.sampled_from(["read", "read-raw", "session", "session"]), min_size=1, max_size=3)))
+        ops = draw(st.one_of(st.just(["read"]), st.just(["read"]), st.just(["read-raw"]), st.lists(st.sampled_from(["read", "read-raw", "session", "session", "session-suppressed"]), min_size=1, max_size=3)))
         callers.append({"did": 0x1000 + i, "start": draw(st.sampled_from([0, 0, 0.05, 0.1, 0.2, 0.35, 0.5, 0.7, 1.0, 1.3, 2.0])),
                         "max_retry": draw(st.integers(0, 1)), "scripts": draw(st.lists(script_s, min_size=1, max_size=2 if len(ops) == 1 else 4)), "ops": ops})
     return {"callers": callers,
@@ -217,6 +217,11 @@ def run_case(case: dict[str, Any]) -> dict[str, Any]:
                             w[5] = ("ok", r.pdu)
                         elif op == "read-raw":  # the same read through send_raw()
                             r = await ecu.send_raw(b"\x22" + c["did"].to_bytes(2, "big"), cfg)
+                            w[5] = ("ok", r.pdu)
+                        elif op == "session-suppressed":
+                            # the request carries the suppress bit, the ECU answers all the same (late, pending first, ..): the
+                            # exchange is as atomic as any other for as long as the client waits for it
+                            r = await ecu.diagnostic_session_control(0x40 + idx, suppress_response=True, config=cfg)
                             w[5] = ("ok", r.pdu)
                         else:
                             r = await ecu.set_session(0x40 + idx, config=cfg)
@@ -372,6 +377,16 @@ def check(case: dict[str, Any]) -> list[tuple[str, str]]:
         if late:
             out.append(("C05/exchange-continues-after-caller-finished", f"{name} finished/cancelled at t={end:.3f} but its exchange went on: {late[:4]}; {_tr(trace)}"))
             break
+    # nothing goes wrong on the ECU's side (every reply is scripted to arrive at once or after a delay below the request timeout) and
+    # nobody is cancelled, reconnects or stops the worker: then every operation of every caller gets its reply, however the callers
+    # and the worker queue up
+    benign = (case.get("cancel") is None and case.get("reconnect_at") is None and case.get("stop_worker_at") is None
+              and (case["tp_interval"] is None or case["tp_script"][0] in ("imm", "delay"))
+              and all(sc[0] == "imm" or (sc[0] == "delay" and sc[1] < TIMEOUT - 0.05) for c in case["callers"] for sc in c["scripts"]))
+    if benign and not out:
+        bad = [(w[0], w[2], w[5]) for w in r["ops"] if w[5] is None or w[5][0] != "ok"]
+        if bad:
+            out.append(("C05/reply-in-time-not-delivered", f"every reply arrives within the request timeout, yet {bad[:3]}; {_tr(trace)}"))
     # the worker's exchanges are protected as well
     for w0, w1, wname in r["pings"]:
         own = [t for t, who, _ in writes if who == wname and w0 <= t <= (w1 if w1 >= 0 else 1e18)]
